@@ -12,7 +12,11 @@ use std::io::Write;
 const LEXEMES: &[&str] = &[
     "PRINT", "print", "GO", "TO", "GOTO", "GOSUB", "IF", "THEN", "ELSE", "FOR", "NEXT", "STEP", "OR", "AND", "NOT",
     "LET", "DIM", "DEF", "END", "STOP", "READ", "RESTORE", "RETURN", "INPUT", "REM", "DATA", "rem", "data",
-    "\"\"", "\"\",", "\\", "\u{fe0f}", "\u{200d}", "\u{7}", "C:\\DOS", "\"-1\"", "\"1E3\"", "\"NAN\"", "\"inf\"", "\"+5\"", "-1", "1E3", "nan", "SC", "E", "x", "Y1", "A$", "TOTAL", "0", "1", "5", "25", ".", ".5", "\"", "\"hi\"", "<", ">", "=", "<=", "<>",
+    "\"\"", "\"\",", "\\", "\u{fe0f}", "\u{200d}", "\u{7}", "C:\\DOS",
+    // a keyword minus its last letter, followed by a character whose first byte is that letter with bit 7
+    // (or bits 7 and 5) set: case folding by bit masks must not see a keyword there
+    "STO\u{410}", "STO😊", "I\u{192}", "I日", "T\u{3c0}", "GOSU€", "GOSU¡", "THE\u{3b1}", "EN\u{101}", "ELS\u{161}", "RE\u{34d}", "RE한", "DAT\u{1000}", "PRIN\u{500}",
+    "\"-1\"", "\"1E3\"", "\"NAN\"", "\"inf\"", "\"+5\"", "-1", "1E3", "nan", "SC", "E", "x", "Y1", "A$", "TOTAL", "0", "1", "5", "25", ".", ".5", "\"", "\"hi\"", "<", ">", "=", "<=", "<>",
     ":", ",", ";", "$", " ", "  ", "\t", "+", "-", "*", "/", "^", "(", ")", "?", "é", "日", "%", "😊",
 ];
 
@@ -62,6 +66,15 @@ fn same(a: &RealLex, b: &RealLex) -> bool {
 }
 
 pub fn lex_event(line: &str, rng: &mut StdRng) -> J {
+    // a panic of the code under test is data, recorded as an event whose error kind is PANIC
+    crate::session::IN_SUT.with(|x| x.set(true));
+    let r = std::panic::catch_unwind(std::panic::AssertUnwindSafe(|| lex_event_inner(line, rng)));
+    crate::session::IN_SUT.with(|x| x.set(false));
+    r.unwrap_or_else(|_| json!({"line": bytes(line), "toks": [], "ranges": [], "err": "PANIC", "ea": 0, "eb": 0, "pert": [],
+                                "listed": false, "list": [], "reload_same": true}))
+}
+
+fn lex_event_inner(line: &str, rng: &mut StdRng) -> J {
     let real = real_lex(line, 0);
     let (k, a, b) = err_json(&real.err);
     let bytes_v = line.as_bytes().to_vec();
